@@ -75,7 +75,8 @@ def run(ctx):
         extra_blocks = rng.choice([0, 0, 1, 2])
         padlen = (-(2 + len(c["key"]))) % bs + bs * extra_blocks      # zero-length padding when already aligned
         choice = {"ext_all": rng.random() < 0.4, "lower": rng.random() < 0.4, "pb_size": rng.choice([None, None, 1, 2]),
-                  "pb_ext": rng.random() < 0.3, "ll": rng.choice([2, 2, 1, 3])}
+                  "pb_ext": rng.random() < 0.3, "ll": rng.choice([2, 2, 1, 3]),
+                  "pb_fill": rng.choice(["0", "0", "F", "x", " ", "~"]), "pb_pos": rng.choice(["last", "last", "first", "middle"])}
         try:
             kb = o.tr31_wrap(c["kbpk"], f, list(h.blocks.items()), c["key"], rng.randbytes(padlen), **choice)
         except AssertionError:
